@@ -3,6 +3,7 @@
 mod l_pos;
 mod l_unify;
 mod l_load;
+mod l_compile;
 
 fn main() {
     let args: Vec<String> = std::env::args().collect();
@@ -11,6 +12,7 @@ fn main() {
         "pos" => l_pos::run(),
         "unify" => l_unify::run(),
         "load" => l_load::run(),
+        "compile" => l_compile::run(),
         _ => {
             eprintln!("usage: oalimpl <layer>");
             std::process::exit(2);
